@@ -112,6 +112,7 @@ type env struct {
 	panicK bool
 	up     bool
 	failNF bool // the failing handler returns an error wrapping datastore.ErrNotFound
+	reuse  bool // Start re-starts the existing Store object instead of building a new one
 }
 
 func newEnv(t *testing.T, c cfg, img map[string][]byte) *env {
@@ -139,6 +140,14 @@ func newEnv(t *testing.T, c cfg, img map[string][]byte) *env {
 }
 
 func (e *env) open() error {
+	if e.reuse && e.st != nil {
+		// the handlers registered on the object stay registered
+		if err := e.st.Start(context.Background()); err != nil {
+			return err
+		}
+		e.up = true
+		return nil
+	}
 	s, err := store.NewStore[*vh.Header](e.user,
 		store.WithWriteBatchSize(e.cfg.bsz), store.WithStoreCacheSize(e.cfg.cache), store.WithIndexCacheSize(e.cfg.cache))
 	if err != nil {
@@ -426,6 +435,7 @@ type variant struct {
 	failOp   int  // index of the op whose datastore writes fail transiently (-1: none)
 	failN    int
 	dfail    int // >0: the dfail-th datastore write of the last operation (a DeleteRange) fails; the deletion is then retried
+	sameobj  bool // Stop / Start are called on one and the same Store object (a restart inside one process)
 }
 
 func parseVariant(s string) variant {
@@ -437,6 +447,8 @@ func parseVariant(s string) variant {
 		v.parallel = true
 	case s == "free":
 		v.free = true
+	case s == "sameobj":
+		v.sameobj = true
 	case strings.HasPrefix(s, "wfail:"):
 		fmt.Sscanf(s, "wfail:%d:%d", &v.failOp, &v.failN)
 	case strings.HasPrefix(s, "dfail:"):
@@ -668,6 +680,7 @@ func runOnce(t *testing.T, id int, c map[string]any, cacheSz int, v variant, bas
 	}
 	synctest.Test(t, func(t *testing.T) {
 		e = newEnv(t, cf, nil)
+		e.reuse = v.sameobj
 		if err := e.open(); err != nil {
 			fatal = "initial Start: " + err.Error()
 			return
@@ -767,6 +780,20 @@ func runOnce(t *testing.T, id int, c map[string]any, cacheSz int, v variant, bas
 				events = append(events, ev)
 				if ev.Res != "ok" {
 					break
+				}
+			}
+		}
+		if v.sameobj && e.up && !panicked && !noEpilogue {
+			// the restarted object is used once more: a one-header tail-side deletion (its handlers must still run)
+			if tl, err := e.st.Tail(context.Background()); err == nil {
+				if hd, err2 := e.st.Head(context.Background()); err2 == nil && hd.Height() > tl.Height() {
+					n := len(events)
+					if len(events) > 0 {
+						n = events[len(events)-1].I + 1
+					}
+					ev := e.doOp(map[string]any{"op": "delete", "from": float64(tl.Height()), "to": float64(tl.Height() + 1), "failAt": float64(0)}, id+n, v, false, false)
+					ev.Tr, ev.I, ev.Cfg = id, n, cfgName(cf)+","+v.name+",after-restart"
+					events = append(events, ev)
 				}
 			}
 		}
